@@ -11,6 +11,19 @@ def any_exception(v):
     return Exn('raises') if isinstance(v, Exn) else v
 
 
+def _by_sort(x, y, key):
+    """-1, 0, 1 from where sorted() and max() put two values (a stable sort keeps order-equal values in place)"""
+    fwd = sorted([x, y], key=key)
+    back = sorted([y, x], key=key)
+    if fwd[0] is x and back[0] is y:
+        return 0
+    if fwd[0] is x and back[0] is x:
+        return -1
+    if fwd[0] is y and back[0] is y:
+        return 1
+    return 'inconsistent'
+
+
 def run(ctx):
     rng = ctx.rng
     unicode_sweep.sweep(ctx, ['is_pydigit', 'is_nd', 'is_space'])
@@ -91,7 +104,13 @@ def run(ctx):
         for how, f in (('compare_versions(Version, Version)', lambda: dv.compare_versions(dv.Version.from_string(a), dv.Version.from_string(b))),
                        ('Version.compare(Version)', lambda: dv.Version.from_string(a).compare(dv.Version.from_string(b))),
                        ('Version.compare(str)', lambda: dv.Version.from_string(a).compare(b)),
-                       ('compare_version_objects', lambda: dv.compare_version_objects(dv.Version.from_string(a), dv.Version.from_string(b)))):
+                       ('compare_version_objects', lambda: dv.compare_version_objects(dv.Version.from_string(a), dv.Version.from_string(b))),
+                       # the ordering as the operators and the sort keys give it
+                       ('(a > b) - (a < b) on Version objects', lambda: (dv.Version.from_string(a) > dv.Version.from_string(b)) - (dv.Version.from_string(a) < dv.Version.from_string(b))),
+                       ('(a >= b) - (a <= b) on Version objects', lambda: (dv.Version.from_string(a) >= dv.Version.from_string(b)) - (dv.Version.from_string(a) <= dv.Version.from_string(b))),
+                       ('compare_versions_key', lambda: (dv.compare_versions_key(a) > dv.compare_versions_key(b)) - (dv.compare_versions_key(a) < dv.compare_versions_key(b))),
+                       ('sorted() of the two Version objects', lambda: _by_sort(dv.Version.from_string(a), dv.Version.from_string(b), None)),
+                       ('sorted() with compare_versions_key', lambda: _by_sort(a, b, dv.compare_versions_key))):
             ctx.evaluations += 1
             try:
                 r2 = f()
